@@ -123,7 +123,7 @@ def graph_is_in_seg_bounds(
     if axes:
         for i, ax in enumerate(axes):
             max_bound = ax.max
-            if max_bound:
+            if max_bound is not None:
                 if seg_shape[i] * scale[i] <= max_bound:
                     errors.append(
                         f"Graph axis {i} is out of bounds with value {max_bound} in "
